@@ -1,4 +1,5 @@
 //verif:package github.com/kstenerud/go-concise-encoding/internal/verifh/c01
+//verif:config maxsec=1800
 //verif:bounds every payload bit symbolic; one value per slot; positions: top level, list, map key, map value; typed arrays (uint8, uint16, int32, float64, UID) of 0..2 elements (byte arrays 0,1,15,16,17) whole and in 2 chunks at every boundary; strings/resource ids of 0,1,2,15,16 ASCII bytes whole/array/chunked; markers+references, record types+records, nodes, edges, media, custom binary, UID, NaN, decimal floats (32-bit coefficient*10+digit)
 //verif:assume big.Int/big.Float/apd.Decimal payloads, times, comments/padding and nesting deeper than 2 are not generated yet
 package c01
